@@ -187,6 +187,23 @@ pub fn run_case(_env: &Env, ctx: &mut Ctx, idx: u64) {
         let _ = std::fs::write(dir.join(n), t);
     }
     let cfg = Cfg { include_paths: vec![dir.clone()], strip_comments: rng.chance(1, 4), ..Cfg::default() };
+    // One case in three follows calls on the same thread that ended in an error (missing file, missing include,
+    // recursion limit, not UTF-8): the budget of the measured call is its own, whatever the thread did before.
+    if ctx.tier != Tier::Tiny && rng.chance(1, 3) {
+        let k = *rng.pick(&[1usize, 2, 5, 20, 60]);
+        let _ = std::fs::write(dir.join("nonutf8.svh"), [0xffu8, 0xfe]);
+        for _ in 0..k {
+            let _ = match rng.below(5) {
+                0 => pp_file(&dir.join("no_such_top.sv"), &cfg).map(|_| ()),
+                1 => pp_str("`include \"no_such_header.svh\"\n", &dir.join("e1.sv"), &cfg).map(|_| ()),
+                2 => pp_str("`define R `R\n`R\n", &dir.join("e2.sv"), &cfg).map(|_| ()),
+                3 => pp_str("`include \"nonutf8.svh\"\n", &dir.join("e3.sv"), &cfg).map(|_| ()),
+                _ => pp_str("`define Q `include \"no_such_header.svh\"\n`Q\n", &dir.join("e4.sv"), &cfg).map(|_| ()),
+            };
+        }
+        ctx.count("cases_after_failed_calls", 1);
+        ctx.count("failed_calls_before_the_case", k as u64);
+    }
     // logical bound instead of a wall clock: (64+2)^2 nested preprocess_str frames
     hooks::reset_pp_frames();
     hooks::set_pp_frame_bound(66 * 66);
